@@ -497,6 +497,10 @@ class WsgiApplication(HttpBase):
             if not isinstance(e, Fault):
                 e = Fault('Server', get_fault_string_from_exception(e))
 
+            # discard whatever the failed serialization has left behind
+            # otherwise it'd be sent instead of the fault document
+            p_ctx.out_document = None
+
             p_ctx.out_error = e
             p_ctx.fire_event('method_exception_object')
 
